@@ -33,10 +33,16 @@ fn any_distinct3(not: u8) -> (u8, u8, u8) {
 #[kani::proof]
 #[kani::unwind(6)]
 fn c10_init_decision_table() {
+    // the parent KIND is looped over concretely: with a symbolic kind CBMC drags the merge path
+    // (add_merge -> evaluate_braid -> braid) into every case and runs out of memory.
+    c10_init_case(0);
+    c10_init_case(1);
+    c10_init_case(2);
+}
+
+fn c10_init_case(pk: u8) {
     let g: u8 = kani::any();
     let id: u8 = kani::any();
-    let pk: u8 = kani::any();
-    kani::assume(pk <= 2);
     let has_policy: bool = kani::any();
     let rejected: bool = kani::any();
     let parent = match pk {
